@@ -162,6 +162,7 @@ struct World
 
 extern World* g_world;
 extern std::string g_trace_path;
+extern bool g_mute;
 
 } // namespace simdrv
 
